@@ -490,7 +490,7 @@ def definitions(m):
         out.append(("schema", "schema {\n" + body + "}"))
     for d in m["directives"]:
         out.append(("@" + d["name"], f"{_d(d['desc'])}directive @{d['name']}{_args(m, d['args'], '')}"
-                    f"{' repeatable' if d['repeatable'] else ''} on {' | '.join(d['locations'])}"))
+                    f"{_dep(d.get('dep'))}{' repeatable' if d['repeatable'] else ''} on {' | '.join(d['locations'])}"))
     for s in m["scalars"]:
         url = f" @specifiedBy(url: {q(s['url'])})" if s["url"] is not None else ""
         out.append((s["name"], f"{_d(s['desc'])}scalar {s['name']}{url}"))
